@@ -92,3 +92,11 @@ Theorem C04_holds : forall c img,
                        (c_gfx c') (c_map c') (c_gff c') (c_music c') (c_sfx c') (c_code c') (c_version c') = true.
 Proof. exact holds_model. Qed.
 Print Assumptions C04_holds.
+
+(* the two pixel functions alone, for an image of any width and any picodata that fits into it *)
+Theorem C04_holds_pixels : forall w rows pd, wf_rows w rows -> Forall byte pd -> (length pd <= w * length rows)%nat ->
+  exists out back, rows_of_picodata_fast pd 4 rows = Ok out /\
+    picodata_of_rows_fast (Z.of_nat w) (zlen out) 4 out = Ok back /\
+    holds_C04_pixels pd rows out back = true.
+Proof. exact holds_pixels_model. Qed.
+Print Assumptions C04_holds_pixels.
